@@ -195,6 +195,9 @@ func (s *OutlineServer) runConfig(config Config) (func() error, error) {
 		}()
 
 		startErr := func() error {
+			// Serving starts only once the whole config has been set up: a config that
+			// fails part-way must not have handled any connection or packet.
+			var serveFuncs []func()
 			totalCipherCount := len(config.Keys)
 			portCiphers := make(map[int]*list.List) // Values are *List of *CipherEntry.
 			for _, keyConfig := range config.Keys {
@@ -231,14 +234,14 @@ func (s *OutlineServer) runConfig(config Config) (func() error, error) {
 					return err
 				}
 				slog.Info("TCP service started.", "address", ln.Addr().String())
-				go service.StreamServe(ln.AcceptStream, ssService.HandleStream)
+				serveFuncs = append(serveFuncs, func() { service.StreamServe(ln.AcceptStream, ssService.HandleStream) })
 
 				pc, err := lnSet.ListenPacket(addr)
 				if err != nil {
 					return err
 				}
 				slog.Info("UDP service started.", "address", pc.LocalAddr().String())
-				go ssService.HandlePacket(pc)
+				serveFuncs = append(serveFuncs, func() { ssService.HandlePacket(pc) })
 			}
 
 			for _, serviceConfig := range config.Services {
@@ -264,19 +267,22 @@ func (s *OutlineServer) runConfig(config Config) (func() error, error) {
 							return err
 						}
 						slog.Info("TCP service started.", "address", ln.Addr().String())
-						go service.StreamServe(ln.AcceptStream, ssService.HandleStream)
+						serveFuncs = append(serveFuncs, func() { service.StreamServe(ln.AcceptStream, ssService.HandleStream) })
 					case listenerTypeUDP:
 						pc, err := lnSet.ListenPacket(lnConfig.Address)
 						if err != nil {
 							return err
 						}
 						slog.Info("UDP service started.", "address", pc.LocalAddr().String())
-						go ssService.HandlePacket(pc)
+						serveFuncs = append(serveFuncs, func() { ssService.HandlePacket(pc) })
 					}
 				}
 				totalCipherCount += len(serviceConfig.Keys)
 			}
 
+			for _, serve := range serveFuncs {
+				go serve()
+			}
 			slog.Info("Loaded config.", "access_keys", totalCipherCount, "listeners", lnSet.Len())
 			s.serverMetrics.SetNumAccessKeys(totalCipherCount, lnSet.Len())
 			return nil
